@@ -2,10 +2,14 @@
 BIN = "c03"
 
 def expected(case, mout):
+    if case.get("op") == "gdec" and mout and mout.startswith("ERR"):
+        # packet 20 is read through the message layer: what was released before the error is judged by the direct
+        # predicate (a prefix of the payload), the correspondence compares clean end / error and the octets of a clean end
+        return "ERR"
     return mout
 
 def nontrivial(case, mout):
-    return case.get("op") in ("v2dec", "v1dec", "v2enc") or str(case.get("cls", "")).startswith("msg-")
+    return case.get("op") in ("v2dec", "v1dec", "v2enc", "gdec", "genc") or str(case.get("cls", "")).startswith("msg-")
 
 RULE = ("SEIPDv2: every cipher x AEAD pair, small chunk sizes, plaintext lengths around 0..3 chunk boundaries: library encryptor output = model; "
         "library streaming decryptor vs model (clean end / octets released before the error) on the untampered stream and on every single-bit flip "
@@ -15,7 +19,9 @@ RULE = ("SEIPDv2: every cipher x AEAD pair, small chunk sizes, plaintext lengths
         "Direct predicate: tampered => error, released octets a prefix of the plaintext (v2) / none at all (v1 default mode). "
         "Message level (Message::from_bytes -> decrypt_the_ring -> Read/BufRead to the end, both SEIPDv1 read modes; SEIPDv2 OCB 64-octet chunks): password-encrypted literal packets whose "
         "decrypted packet stream ends around 8170, 8192, 16340 and 16384 octets (the decryptor's buffer minus the 22-octet MDC), bit flips in the first 24 and last 48 octets of the container and sampled elsewhere, "
-        "re-framed truncations / extensions of the container, the message cut off inside it: never a clean end.")
+        "re-framed truncations / extensions of the container, the message cut off inside it: never a clean end. "
+        "Packet 20 (GnuPG / LibrePGP OCB encrypted data, opt-in): containers built from the primitive and tied to the model's encryptor, chunk-size octets 0, 2 and 16 (GnuPG's default), "
+        "OCB (the only mode the library reads there); every bit of version, cipher, mode, chunk-size octet, IV; bit flips, truncations, dropped / doubled / swapped chunks: never a clean end, clean ends equal the model's.")
 TRUSTED = [
     "model files: coq/theories/Aead/Seipd2.v, Sym/Cfb.v; theorems coq/theories/Props/C03.v (proofs in Seipd2Proofs.v, Seipd2Integrity.v, CfbProofs.v)",
     "AEAD modes, block ciphers, SHA-1, HKDF are primitives: parameters of the theorems, and at run time the oracle `prims` (RustCrypto crates linked directly) -- the same crates the library uses",
